@@ -164,67 +164,8 @@ func runC14(c *Ctx) {
 		}
 		c.check(bad == "", "PFB-HEX", "pfb.hexEncode", "nibbles 0..15 → lower-case hexadecimal digits", hfd.Pos(), "16 values evaluated", "hex encoder: "+bad)
 	}
-	// ---- in-place expansion: downward loop, even → high nibble of b[i/2], odd → low nibble
-	{
-		var loop *ast.ForStmt
-		if cl := labels[2]; cl != nil {
-			ast.Inspect(cl, func(n ast.Node) bool {
-				if fl, ok := n.(*ast.ForStmt); ok && loop == nil {
-					loop = fl
-				}
-				return true
-			})
-		}
-		okExp := false
-		why := "expansion loop not found"
-		if loop != nil {
-			why = ""
-			if inc, ok := loop.Post.(*ast.IncDecStmt); !ok || inc.Tok != token.DEC {
-				why = "the expansion does not run from the back (it would overwrite input bytes not yet expanded)"
-			}
-			if be, ok := loop.Cond.(*ast.BinaryExpr); !ok || be.Op != token.GEQ {
-				why = "unexpected loop condition"
-			} else if k, ok := constIntOf(info, be.Y); !ok || k != 0 {
-				why = "the expansion does not run down to position 0"
-			}
-			// branches
-			if len(loop.Body.List) == 1 {
-				if ifs, ok := loop.Body.List[0].(*ast.IfStmt); ok && ifs.Else != nil {
-					env := &symEnv{info: info, vars: map[string]string{}}
-					ct := ""
-					if be, ok := ifs.Cond.(*ast.BinaryExpr); ok && be.Op == token.EQL {
-						ct = env.term(be.X) + "==" + env.term(be.Y)
-					}
-					rhs := func(b *ast.BlockStmt) string {
-						if len(b.List) == 1 {
-							if as, ok := b.List[0].(*ast.AssignStmt); ok && len(as.Rhs) == 1 {
-								return env.term(as.Lhs[0]) + "=" + env.term(as.Rhs[0])
-							}
-						}
-						return "?"
-					}
-					even := rhs(ifs.Body)
-					odd := "?"
-					if eb, ok := ifs.Else.(*ast.BlockStmt); ok {
-						odd = rhs(eb)
-					}
-					if ct != "rem(?i,2)==0" {
-						why = "parity test is " + ct
-					} else if even != "?b[i]=hexEncode(shr(?b[i / 2],4))" {
-						why = "even positions get " + even
-					} else if odd != "?b[i]=hexEncode(and(15,?b[i / 2]))" {
-						why = "odd positions get " + odd
-					}
-				} else {
-					why = "unexpected loop body"
-				}
-			} else {
-				why = "unexpected loop body"
-			}
-			okExp = why == ""
-		}
-		c.check(okExp, "PFB-EXPAND", fname, "in-place expansion from the back: position i gets the high (i even) or low (i odd) nibble of byte i/2", fd.Pos(), "for i := l-1; i >= 0; i-- …", "hex expansion: "+why)
-	}
+	// ---- in-place expansion
+	c.pfbExpandRule()
 
 	// ---- buffer filling: nil error only after the loop
 	{
